@@ -1,5 +1,6 @@
 (** C03 — only justified work is re-executed (core fragment of the engine model). *)
 From QV Require Import Common.Prelude Engine.Model Engine.Core Engine.CoreSpec Engine.CoreSound.
+From QV Require Import Engine.Fw Engine.FwOnce.
 
 (** an executor runs at most once per request and at most once between two input sessions *)
 Theorem C03_core_once :
@@ -24,6 +25,15 @@ Proof. exact CoreSound.C03_core_justified. Qed.
 Theorem C03_core_justified_unguarded_refuted : ~ C03_core_justified_statement_unguarded.
 Proof. exact CoreSound.C03_core_justified_statement_unguarded_refuted. Qed.
 
+(** at most once per request and per epoch also with FIREWALL queries (any program, any fuel) *)
+Theorem C03_fw_once :
+  forall fuel p ops i j m r,
+    let rs := frun_history_f fuel p init_state ops in
+    (nth_error rs i = Some r -> NoDup (r_execs r)) /\
+    ((j < i)%nat -> executed_at rs i m -> executed_at rs j m -> ~ no_session_between ops j i).
+Proof. exact FwOnce.fw_once. Qed.
+
 Print Assumptions C03_core_once.
+Print Assumptions C03_fw_once.
 Print Assumptions C03_core_justified.
 Print Assumptions C03_core_justified_unguarded_refuted.
